@@ -49,7 +49,7 @@ FAMILIES = {
 }
 
 
-def confirm_integration(h, ov, logdir, replay_path, testfile):
+def confirm_integration(h, ov, logdir, replay_path, testfile, release=False):
     """Run a native integration test file (real crates, public API) in a plain copy of the tree under test."""
     import shutil
     src = getattr(ov, "repo_copy", None) or ov.dir
@@ -65,7 +65,7 @@ def confirm_integration(h, ov, logdir, replay_path, testfile):
     lf = os.path.join(logdir, h.name + ".native.log")
     try:
         with open(lf, "w") as f:
-            rel = ["--release"] if h.overlay == "e1r" else []  # release semantics: replay in the profile users run
+            rel = ["--release"] if (h.overlay == "e1r" or release) else []  # release semantics: replay in the profile users run
             subprocess.run(["cargo", "test", "--offline"] + rel + ["--test", name] + ([tfilter] if tfilter else []) + ["--", "--test-threads", "1"], cwd=work, stdout=f,
                            stderr=subprocess.STDOUT, env=env, timeout=1200)
     except subprocess.TimeoutExpired:
@@ -74,7 +74,7 @@ def confirm_integration(h, ov, logdir, replay_path, testfile):
     shutil.rmtree(work, ignore_errors=True)
     with open(replay_path, "a") as f:
         f.write("\n// ---- native confirmation through the real crates and the public API ----\n")
-        f.write("// run-native: cp /verif/replay/%s <xt checkout>/tests/ && cargo test --offline %s--test %s\n" % (testfile, "--release " if h.overlay == "e1r" else "", name))
+        f.write("// run-native: cp /verif/replay/%s <xt checkout>/tests/ && cargo test --offline %s--test %s\n" % (testfile, "--release " if (h.overlay == "e1r" or release) else "", name))
         for line in re.findall(r"^\d+ violations, first:.*$|^.*panicked at.*\n.*$", out, re.M)[:5]:
             f.write("// " + line.replace("\n", " ")[:600] + "\n")
     if re.search(r"test result: FAILED", out):
